@@ -143,7 +143,8 @@ Section EvalF64.
     | AMax => if (1 <? len)%nat then Ok (fold_left (fun acc v => m2 L MMax v acc) vs fninf)
               else match vs with v :: _ => Ok v | [] => Ok fzero end
     | AAvg => Ok (fdiv (fold_left fadd vs fzero) (f64_of_Z (Z.of_nat len)))
-    | AMed => let s := sortF vs in
+    | AMed => if existsb fis_nan vs then Ok fnan else
+              let s := sortF vs in
               if Nat.even len then
                 let* a := index s (Nat.div2 len) in
                 let* b := index s (Nat.div2 len - 1) in
